@@ -150,15 +150,55 @@ SPECIAL_SETS = ((None, EOFError(), b"", 0),
                 (EOFError(), 0.0, ".", None),
                 (None, b"\x80\x04N.", EOFError, frozenset()))
 
+# In-place modification downstream (Cache.tla mu = TRUE): the consumer modifies every value it has received - the dict /
+# list objects found at the top of the value or inside its tuples get one more mark (as a lena element updates the
+# context of a value in place).  A value that is yielded with k marks is an object that earlier runs yielded:
+# it is recorded as 10000 * k + its abstract value (Cache.tla Mod).
+MARK = "lenaverif-mark"
+
+
+def mutate(x):
+    """Modify the value in place."""
+    if isinstance(x, tuple):
+        for y in x:
+            mutate(y)
+    elif isinstance(x, dict):
+        x[MARK] = x.get(MARK, 0) + 1
+    elif isinstance(x, list):
+        x.append(MARK)
+
+
+def unmark(x):
+    """-> (the value without the marks of mutate (a copy of the marked parts), the largest number of marks on a part)"""
+    if isinstance(x, tuple):
+        parts = [unmark(y) for y in x]
+        return tuple(p[0] for p in parts), max([p[1] for p in parts] or [0])
+    if isinstance(x, dict) and MARK in x:
+        d = dict(x)
+        return d, d.pop(MARK)
+    if isinstance(x, list):
+        k = 0
+        while k < len(x) and x[len(x) - 1 - k] == MARK:
+            k += 1
+        return (x[:len(x) - k], k) if k else (x, 0)
+    return x, 0
+
+
 STYLES = ("int", "pair", "str", "nested", "ctxonly", "alias_ctx", "alias_list", "falsy", "shared")
 # values that look like "nothing": a cache must store and replay them like any other value
 FALSY = (None, 0, "", {}, [], False, 0.0, (), b"", frozenset())
 ALIAS_STYLES = ("alias_ctx", "alias_list")
+# styles whose values have a mutable part the consumer can modify in place (and that are new objects for every value)
+MUT_STYLES = ("pair", "nested", "ctxonly", "shared")
 
 
 def effective_style(style, scen):
     """The "falsy" style identifies its values by version and position: not usable together with special / repeated
     values (which look the same wherever they occur) - those histories use plain ints for their other values."""
+    if scen.get("mu") and style not in MUT_STYLES:
+        # the consumer modifies the values in place: values with a mutable part, a new object each
+        # (the falsy objects are module constants, the aliasing styles one object the source itself updates)
+        return MUT_STYLES[STYLES.index(style) % len(MUT_STYLES)]
     if style == "falsy" and any(k != FRESH for codes in scen["vk"] for k in codes):
         return "int"
     return style
@@ -316,6 +356,7 @@ def run_history(workdir, scen, cmds, style="int", protocol=2, drain=True, probe=
     `raise` is a `next` for which the element named by `a` was told at `start` to raise at that value (c = 1: the
     consumer keeps the exception object, as error-collecting code does); `stop` with a = "keep": the consumer stops
     pulling and keeps the iterator; `release` drops everything kept so far (the suspended generators are finalised).
+    scen["mu"]: the consumer modifies every value in place after it has recorded it (first runs and replays alike).
     drain: a run still open at the end is continued to its end; probe: afterwards a fresh
     non-recompute pipeline is run `probe` times to its end (reveals what the caches now hold) - while the kept
     iterators / exceptions are still there, and once more after they were released.
@@ -334,6 +375,7 @@ def run_history(workdir, scen, cmds, style="int", protocol=2, drain=True, probe=
 
 def _run_history(workdir, scen, cmds, style, protocol, drain, probe, keep, names, exc, specials, kept):
     vk, nc, shape = scen["vk"], scen["nc"], scen["shape"]
+    mu = bool(scen.get("mu"))
     lens = [len(codes) for codes in vk]
     n = max(lens)
     d = workdir
@@ -355,11 +397,15 @@ def _run_history(workdir, scen, cmds, style, protocol, drain, probe, keep, names
     def identify(x):
         """Abstract value of a yielded object: by the repr of its snapshot; where several abstract values
         look the same (falsy values) the one at the current position of the run is meant."""
+        marks = 0
+        if mu:
+            # an object that the consumer of an earlier run has modified: 10000 * number of marks + its value
+            x, marks = unmark(x)
         cands = decode.get(repr(x), ())
         if not cands:
             return -1
         here = [a for a in cands if a % 100 == state["npos"] + 1]
-        return min(here) if here else min(cands)
+        return 10000 * marks + (min(here) if here else min(cands))
 
     def log(cmd, a, res, v=0, c=0):
         events.append({"cmd": cmd, "a": a, "res": res, "v": v, "c": c, "rc": list(state["rc"]),
@@ -392,6 +438,10 @@ def _run_history(workdir, scen, cmds, style, protocol, drain, probe, keep, names
             return "exc"
         log("next", "", "val", v=identify(x))
         state["npos"] += 1
+        if mu:
+            # (after the value was recorded) the consumer modifies it in place
+            mutate(x)
+        del x
         return "val"
 
     def do_stop(kind):
@@ -547,7 +597,7 @@ def cover_paths(records):
     intern = {}
     tries = {}
     for r in records:
-        sk = (json.dumps(r["vk"]), r["nc"], json.dumps(r["shape"], sort_keys=True))
+        sk = (json.dumps(r["vk"]), r["nc"], json.dumps(r["shape"], sort_keys=True), bool(r.get("mu")))
         node = tries.setdefault(sk, {})
         for e in r["h"]:
             c = (e["cmd"], e["a"], tuple(e["rc"]), e["c"])
@@ -571,7 +621,7 @@ def cover_paths(records):
             for c in sorted(node, reverse=True):
                 stack.append((node[c], h + (c,)))
         for h in found:
-            out.append(({"lens": [len(codes) for codes in vk], "vk": vk, "nc": nc, "shape": sh},
+            out.append(({"lens": [len(codes) for codes in vk], "vk": vk, "nc": nc, "shape": sh, "mu": sk[3]},
                         [{"cmd": e[0], "a": e[1], "rc": list(e[2]), "c": e[3]} for e in h]))
         tries[sk] = None
     return out
@@ -582,7 +632,7 @@ def cover_paths(records):
 # (each shard: replay its histories on the real code, then one TLC run over the recorded events)
 
 _AT_RE = re.compile(r'^<<"AT", (\d+), (\d+)>>', re.M)
-_FIELDS = ("vk", "nc", "shape", "ev")
+_FIELDS = ("mu", "vk", "nc", "shape", "ev")
 
 
 _KEEP = {"new": ("cmd", "res", "rc"), "drop": ("cmd", "res", "c"), "data": ("cmd",),
@@ -596,7 +646,7 @@ _KEEP = {"new": ("cmd", "res", "rc"), "drop": ("cmd", "res", "c"), "data": ("cmd
 def _tlc_trace(workdir, cfg, recs, label):
     path = os.path.join(workdir, "%s.json" % label)
     with open(path, "w") as f:
-        json.dump([{"vk": r["vk"], "nc": r["nc"], "shape": r["shape"],
+        json.dump([{"mu": bool(r.get("mu")), "vk": r["vk"], "nc": r["nc"], "shape": r["shape"],
                     "ev": [{k: e[k] for k in _KEEP[e["cmd"]]} for e in r["ev"]]} for r in recs], f)
     res = core.run_tlc("Trace_Cache", cfg, workdir, workers=1, env={"TRACE_FILE": path}, timeout=3000)
     os.remove(path)
@@ -655,10 +705,11 @@ def _shard_job(args):
         opts = it[5] if len(it) > 5 else {}
         names, exc, specials = opts.get("names", 0), opts.get("exc", "exc"), opts.get("specials", 0)
         style = effective_style(style, scen)
+        # (mu: the fresh Cache objects of the probe replay the files completely twice)
         ev = run_history(os.path.join(d, "fs"), scen, cmds, style=style, protocol=protocol, names=names, exc=exc,
-                         specials=specials)
+                         specials=specials, probe=2 if scen.get("mu") else 1)
         lens = [len(codes) for codes in scen["vk"]]
-        recs.append({"lens": lens, "vk": scen["vk"], "n": max(lens), "nc": scen["nc"], "shape": scen["shape"], "ev": ev,
+        recs.append({"mu": bool(scen.get("mu")), "lens": lens, "vk": scen["vk"], "n": max(lens), "nc": scen["nc"], "shape": scen["shape"], "ev": ev,
                      "style": style, "protocol": protocol, "cmds": cmds, "gi": gi,
                      "names": list(NAME_PAIRS[names % len(NAME_PAIRS)][:scen["nc"]]), "exc": exc,
                      "specials": [repr(x) for x in SPECIAL_SETS[specials % len(SPECIAL_SETS)]]})
@@ -734,7 +785,10 @@ def classify(rec, acc):
         else:
             kind = "unexpected-end"
     elif e["cmd"] == "next" and e["res"] == "val":
-        if e["v"] == -1:
+        if e["v"] >= 10000:
+            # an object that an earlier run yielded, as the consumer modified it in place since, yielded again
+            kind = "value-modified-by-earlier-run"
+        elif e["v"] == -1:
             kind = "altered-value"
         elif e["pulled"] or e["wpre"]:
             kind = "upstream-touched-or-recomputed"
@@ -750,7 +804,7 @@ def classify(rec, acc):
         kind = "release-failed"
     else:
         kind = "unexpected"
-    if released and e["cmd"] == "next" and not e["pulled"] and not kind.startswith("ended-at-"):
+    if released and e["cmd"] == "next" and not e["pulled"] and not kind.startswith(("ended-at-", "value-modified-")):
         # a run that only loads, after suspended runs were finalised, does not replay what was stored (a wrong
         # value, an early end or an unreadable file: one signature)
         return "released-run-changed-cache:next:load"
@@ -816,12 +870,12 @@ def check_histories(ctx, items, what):
             if key not in worst or (len(rec["ev"]), rec["gi"]) < (len(worst[key][0]["ev"]), worst[key][0]["gi"]):
                 worst[key] = (rec, acc)
         for r in o["samples"]:
-            ctx.sample({"recorded_history_%s" % what: {k: r[k] for k in ("lens", "vk", "nc", "shape", "style", "ev")}}, limit=4)
+            ctx.sample({"recorded_history_%s" % what: {k: r[k] for k in ("mu", "lens", "vk", "nc", "shape", "style", "ev")}}, limit=4)
     for key in sorted(worst):
         rec, acc = worst[key]
         ctx.violation("Cache:%s" % key, {
             "found_by": what,
-            "scenario": {"lens": rec["lens"], "value_codes": rec["vk"], "special_values": rec["specials"],
+            "scenario": {"consumer_modifies_values_in_place": rec["mu"], "lens": rec["lens"], "value_codes": rec["vk"], "special_values": rec["specials"],
                          "nc": rec["nc"], "shape": rec["shape"], "style": rec["style"],
                          "protocol": rec["protocol"], "cache_names": rec["names"], "injected_exception": rec["exc"]},
             "commands": rec["cmds"],
